@@ -1,5 +1,5 @@
 /* C18 -- the catalogue compiler: ev_spec.c (ev_spec_compile, parse_signature, parse_args,
- * parse_arg, parse_type) and model_evspec.c (model_evspec_init, model_evspec_find).
+ * parse_arg, parse_type).
  *
  * BOUNDED and PARTIAL.  A fully symbolic signature run through the real tokenising loop of
  * parse_args does not finish (measured: plain CBMC without DFCC, 16-byte signature: > 5 min in
@@ -14,12 +14,13 @@
  *                         bytes) that has no argument list: accepted iff three printable characters
  *                         and nothing else; MCV, flags, empty payload; the refused classes;
  *                         parse_args is proved unreachable there (contract with requires(false));
- *   model_evspec_init     duplicate / model character / compile failure on a two-entry catalogue.
+ * model_evspec_init (real uthash add/find on symbolic keys) does not finish either (> 170 s with tight unwinding):
+ * it is evaluated natively on every single-entry corruption of the eight real catalogues (init_refuses_corrupt).
  * NOT decided by CBMC: parse_args' loop over a symbolic argument list (cumulative offsets over
  * several arguments follow from parse_arg's contract by induction on the loop -- argued, not
  * machine-checked).  The real catalogue (every signature of the eight model_evlist[]) is covered
  * completely by the native groups (catalogue_<model>.evlist_wellformed recomputes offsets, sizes,
- * types and names independently); sample malformed argument lists by native group evspec_native.
+ * types and names independently); sample malformed argument lists by the native obligation compile_samples.
  *
  * Trusted stubs (libc, outside the unit):
  *   strtok_r   POSIX.1-2008 hand model (CBMC ships no body)
@@ -112,8 +113,6 @@ static int c18_snprintf(char *s, size_t n, const char *fmt, const char *arg)
 #define snprintf(s, n, fmt, a) c18_snprintf((s), (n), (fmt), (const char *) (uintptr_t) (a))
 
 #include "ev_spec.c"         /* the real /repo/src/emu/ev_spec.c */
-#include "model_evspec.c"    /* the real /repo/src/emu/model_evspec.c */
-#include "model.h"
 
 #define RET __CPROVER_return_value
 #define OLD(e) __CPROVER_old(e)
@@ -235,40 +234,4 @@ void h_ev_spec_compile(void)
 	if (r != 0 && w_sig[3] == 'x') REACH("junk after the MCV refused");
 	if (r != 0 && w_sig[2] == '\0') REACH("short signature refused");
 	if (r != 0 && w_sig[1] == ' ' && w_sig[3] == '\0') REACH("blank in the MCV refused");
-}
-
-/* ====================================================================================
- * model_evspec_init on a two-entry catalogue with arbitrary three-character codes:
- * refused when a code does not compile, is duplicated, or carries another model character.
- * ==================================================================================== */
-char w_a[3], w_b[3]; int w_model;
-WITNESS(model_evspec_init);
-#define E(i, j) (spec->evlist[i].signature[j])
-#define GRAPH_E(i) (isgraph(E(i, 0)) && isgraph(E(i, 1)) && isgraph(E(i, 2)))
-#define SAME_MCV (E(0, 0) == E(1, 0) && E(0, 1) == E(1, 1) && E(0, 2) == E(1, 2))
-int c_model_evspec_init(struct model_evspec *evspec, struct model_spec *spec)
-__CPROVER_requires(__CPROVER_is_fresh(evspec, sizeof(*evspec)) && __CPROVER_is_fresh(spec, sizeof(*spec)))
-__CPROVER_requires(__CPROVER_is_fresh(spec->evlist, 3 * sizeof(struct ev_decl)) && DIAG_PRE)
-__CPROVER_requires(__CPROVER_is_fresh(spec->evlist[0].signature, 4) && spec->evlist[0].signature[3] == '\0')
-__CPROVER_requires(__CPROVER_is_fresh(spec->evlist[1].signature, 4) && spec->evlist[1].signature[3] == '\0')
-__CPROVER_requires(spec->evlist[2].signature == NULL)
-__CPROVER_requires(WBIND(model_evspec_init, w_model == spec->model && w_a[0] == E(0, 0) && w_a[1] == E(0, 1) && w_a[2] == E(0, 2) &&
-	w_b[0] == E(1, 0) && w_b[1] == E(1, 1) && w_b[2] == E(1, 2)))
-__CPROVER_assigns(__CPROVER_object_whole(evspec), DIAG_FRAME)
-__CPROVER_ensures(RET == 0 || RET == -1)
-__CPROVER_ensures(IMPLIES(GRAPH_E(0) && GRAPH_E(1) && SAME_MCV, RET == -1))                               /* duplicate MCV */
-__CPROVER_ensures(IMPLIES(GRAPH_E(0) && E(0, 0) != spec->model, RET == -1))                               /* model character */
-__CPROVER_ensures(IMPLIES(GRAPH_E(0) && GRAPH_E(1) && E(1, 0) != spec->model, RET == -1))
-__CPROVER_ensures(IMPLIES(!GRAPH_E(0) || !GRAPH_E(1), RET == -1))                                         /* does not compile */
-__CPROVER_ensures(IMPLIES(RET == 0, evspec->nevents == 2 && evspec->alloc != NULL && evspec->spec != NULL))
-__CPROVER_ensures(IMPLIES(RET != 0, g_err > OLD(g_err)))
-;
-void h_model_evspec_init(void)
-{
-	struct model_evspec *evspec; struct model_spec *spec;
-	WITNESS_ON(model_evspec_init);
-	int r = model_evspec_init(evspec, spec);
-	if (r == 0) REACH("two different events of the model accepted");
-	if (r != 0 && w_a[0] == w_model && w_b[0] == w_model && w_a[1] == w_b[1] && w_a[2] == w_b[2]) REACH("duplicate refused");
-	if (r != 0 && w_a[0] != w_model) REACH("foreign model character refused");
 }
